@@ -204,6 +204,9 @@ async fn main(plan: Plan) -> Outcome {
         }
     };
     world::sleep_ns(500 * MS).await;
+    // PREPARE is not speculated; the statements are prepared on every node up front.
+    let sel = session.prepare(client::Q_PREPARED_SELECT).await.ok();
+    let ins = session.prepare(client::Q_PREPARED_INSERT).await.ok();
 
     let mut hist = Vec::new();
     let mut spec_started = 0u64;
@@ -215,7 +218,10 @@ async fn main(plan: Plan) -> Outcome {
         let t0 = world::now_ns();
         // The same execution core is reached through several APIs. The outcome is
         // normalised to Ok(rows ok?) / Err(error class).
-        let api = tape::weighted("c13:api", &[3, 2]);
+        let mut api = tape::weighted("c13:api", &[3, 2, 2, 1]);
+        if (api == 2 && sel.is_none()) || (api == 3 && ins.is_none()) {
+            api = 0;
+        }
         let res: Result<Result<Result<(), String>, (&'static str, String)>, tokio::time::error::Elapsed> =
             tokio::time::timeout(Duration::from_secs(120), async {
                 match api {
@@ -223,6 +229,24 @@ async fn main(plan: Plan) -> Outcome {
                         Ok(qr) => Ok(client::check_marker_rows(qr, m)),
                         Err(e) => Err((classify(&e), client::short_err(&e))),
                     },
+                    2 => {
+                        let mut p = sel.clone().unwrap();
+                        p.set_is_idempotent(idempotent);
+                        match session.execute_unpaged(&p, (i as i64, m as i64)).await {
+                            Ok(qr) => Ok(client::check_marker_rows(qr, m)),
+                            Err(e) => Err((classify(&e), client::short_err(&e))),
+                        }
+                    }
+                    3 => {
+                        let mut b = scylla::statement::batch::Batch::default();
+                        b.append_statement(ins.clone().unwrap());
+                        b.append_statement(ins.clone().unwrap());
+                        b.set_is_idempotent(idempotent);
+                        match session.batch(&b, ((1i64, m as i64), (2i64, m as i64))).await {
+                            Ok(_) => Ok(Ok(())),
+                            Err(e) => Err((classify(&e), client::short_err(&e))),
+                        }
+                    }
                     _ => {
                         use futures::StreamExt;
                         use scylla::errors::{NextPageError, PagerExecutionError};
